@@ -278,7 +278,16 @@ def _run_prop(case):
     rg = P(im, d1, gradient_filter=gf)
     resid["gradient"] = relmax(rg.transpose(*r1.dims).values, r1.values - P(im, d1 + gf).transpose(*r1.dims).values)
     resid["energy_growth_gf4"] = fnum(max(0.0, _energy(rg) / (4 * e0) - 1))
-    phase = 2 * math.pi * max(abs(d1), abs(d2), abs(d3), abs(d1 + d2)) / lm
+    # same image, distances and vacuum wavelength, *different medium*: only lambda/n matters, so
+    # (lambda, n2) must equal (lambda/n2, 1) -- and must not be served from anything remembered from the calls above
+    n2 = nmed * float(rng.uniform(1.1, 1.6))
+    ra = hp.propagate(im, d1, medium_index=n2, illum_wavelen=lam)
+    rb = hp.propagate(im, d1, medium_index=1.0, illum_wavelen=lam / n2)
+    resid["medium_rescaling"] = relmax(ra.transpose(*r1.dims).values, rb.transpose(*r1.dims).values)
+    rc2 = hp.propagate(hp.propagate(im, d1, medium_index=n2, illum_wavelen=lam), d2, medium_index=n2, illum_wavelen=lam)
+    rd2 = hp.propagate(im, d1 + d2, medium_index=1.0, illum_wavelen=lam / n2)
+    resid["additive@second_medium"] = relmax(rc2.values.reshape(-1), rd2.transpose(*rc2.dims).values.reshape(-1))
+    phase = 2 * math.pi * max(abs(d1), abs(d2), abs(d3), abs(d1 + d2)) / lm * 1.6
     return {"resid": resid, "flags": flags, "phase": phase, "const": False,
             "evanescent": bool(min(case["spacing"]) < lm / 2)}
 
@@ -306,7 +315,7 @@ def judge(case, obs):
         return out
     ph = max(1.0, obs.get("phase", 1.0))
     tol = 1e-12 + 2e-15 * ph
-    for k in ("additive", "inverse", "linear", "stack", "cfsp", "gradient"):
+    for k in ("additive", "inverse", "linear", "stack", "cfsp", "gradient", "medium_rescaling"):
         for kk, v in r.items():
             if kk.split("@")[0] == k and not v <= tol * (20 if k == "gradient" else 1):
                 out.append({"mech": "prop.%s" % k, "detail": "%s=%.3e > %.2e (phase %.2e); %s" % (kk, v, tol, ph, desc)})
